@@ -89,6 +89,8 @@ type Stats struct {
 	Unscripted     int            `json:"unscripted_timeouts"`
 	Desync         int            `json:"desynchronised"`
 	SkippedSlow    int            `json:"skipped_slow"`
+	SkipReasons    map[string]int `json:"skip_reasons"`
+	SkipExamples   []string       `json:"skip_examples"`
 	Pokes          int            `json:"pokes"`
 	Replaces       int            `json:"replaces"`
 	Ticks          int            `json:"ticks"`
@@ -99,7 +101,9 @@ type Stats struct {
 	WriteWhileHeld int            `json:"writes_while_a_request_was_in_flight"`
 }
 
-func NewStats() *Stats { return &Stats{Tries: map[string]int{}, Classes: map[string]int{}} }
+func NewStats() *Stats {
+	return &Stats{Tries: map[string]int{}, Classes: map[string]int{}, SkipReasons: map[string]int{}}
+}
 
 func (s *Stats) Add(o *Stats) {
 	s.Behaviours += o.Behaviours
@@ -128,6 +132,14 @@ func (s *Stats) Add(o *Stats) {
 	}
 	for k, v := range o.Classes {
 		s.Classes[k] += v
+	}
+	for k, v := range o.SkipReasons {
+		s.SkipReasons[k] += v
+	}
+	for _, e := range o.SkipExamples {
+		if len(s.SkipExamples) < 6 {
+			s.SkipExamples = append(s.SkipExamples, e)
+		}
 	}
 }
 
@@ -740,9 +752,24 @@ func (r *Runner) Run(bi int, sc *Script, st *Stats) ([]Mismatch, error) {
 		}
 	}
 	if len(s.out) > before || len(s.out) > 0 {
-		if ms > r.o.MaxStall || len(s.ambiguous) > 0 || (usedTicks && s.tainted) || tooLong {
-			// too slow to judge: an accepted request whose client had given up, or a stalled process
+		reason := ""
+		switch {
+		case ms > r.o.MaxStall:
+			reason = "process or disk stalled"
+		case len(s.ambiguous) > 0:
+			reason = "a request was answered after its client had given up"
+		case usedTicks && s.tainted:
+			reason = "retention script could not be followed on its time grid"
+		case tooLong:
+			reason = "script without ticks took longer than 18 s"
+		}
+		if reason != "" {
+			// too slow to judge
 			st.SkippedSlow++
+			st.SkipReasons[reason]++
+			if len(st.SkipExamples) < 6 {
+				st.SkipExamples = append(st.SkipExamples, fmt.Sprintf("behaviour %d (%s): %s", bi, reason, s.out[0].Text))
+			}
 			return nil, nil
 		}
 	}
